@@ -12,6 +12,8 @@ package main
 //	t:<n>               n ticks have passed since the scenario started (the driver lets the model's time follow: tick + update each)
 //	reg:<P>             peer P completed the status exchange (RegisterPeer)
 //	dc:<P> / dcx:<P>    the node disconnected P with reason 3 (useless peer = ProtocolManager.removePeer); dcx: P is not judged
+//	lv:<P>              P LEFT by itself (disconnect message / connection closed or reset / protocol error): the node unregisters it
+//	                    (ProtocolManager.removePeer → UnregisterPeer); what it was asked for stays in flight until it times out. P is not judged
 //	sync:<P>:<H>        P received the head probe of findAncestor (GetBlockHashesFromNumber{max(H-512,0), 512}): Synchronise(P) started, local height H
 //	hp:<P>:<q><c>:<ids> P sent a BlockHashes pack; q = what the node's chain says about it as an answer to the ancestor search
 //	                    (k: probe - one of the hashes is held / search - held at the height asked for; u: not held; w: held at another height);
@@ -438,8 +440,12 @@ func (s *syncScn) dlEmit() {
 		p.rawPeer.mu.Lock()
 		closed, why, at := p.rawPeer.closed, p.rawPeer.discWhy, p.rawPeer.closedAt
 		p.rawPeer.mu.Unlock()
-		byNode := closed && why == "disc 3"
-		unjudged := strings.HasPrefix(p.role, "B(bystander)") || racySender[name]
+		p.mu.Lock()
+		left := p.left
+		p.mu.Unlock()
+		// (a peer that left by itself is not judged, and its departure is in the trace already: `lv`)
+		byNode := closed && why == "disc 3" && !left
+		unjudged := strings.HasPrefix(p.role, "B(bystander)") || racySender[name] || left
 		if byNode {
 			// (dc: a judged peer — the model has to come to the same decision on its own; dcx: a peer that is not judged — the model is told)
 			tok := "dc:"
